@@ -68,7 +68,11 @@ func (s *Sim) abciQuery(path string, req, resp gogoproto.Message) (code uint32, 
 	if err != nil {
 		panic(harnessErr("marshal query: %v", err))
 	}
-	res, err := s.N.App.Query(context.Background(), &abci.RequestQuery{Path: path, Data: bz})
+	app := s.N.App
+	if s.qNode != nil {
+		app = s.qNode.App // the query surface of a chain re-initialised from this one's export
+	}
+	res, err := app.Query(context.Background(), &abci.RequestQuery{Path: path, Data: bz})
 	if err != nil {
 		return 1, err.Error()
 	}
@@ -105,7 +109,7 @@ func (s *Sim) auditQueries(r *Rng) {
 		s.Stats.Probe("query_audit_with_3plus_entries")
 	}
 	bad := func(rule, fp, f string, a ...any) {
-		s.violate("C13", rule, fp, fmt.Sprintf(f, a...))
+		s.violate("C13", rule, fp+s.qTag, fmt.Sprintf(f, a...))
 	}
 	// direct lookups of every existing key
 	for i := range amts {
@@ -176,6 +180,49 @@ func (s *Sim) auditQueries(r *Rng) {
 	}
 }
 
+// auditQueriesAfterGenesisRestart: the chain is restarted through its own exported genesis (a fresh
+// application instance, real InitChain with the exported orbiter section) and the whole query audit runs
+// against the new instance: the views must be as faithful there as on the chain that accumulated the
+// totals transfer by transfer.
+func (s *Sim) auditQueriesAfterGenesisRestart(r *Rng) {
+	g := s.N.App.OrbiterKeeper.ExportGenesis(s.N.Ctx())
+	if len(g.DispatcherGenesis.DispatchedCounts) == 0 {
+		return
+	}
+	var failure string
+	var n2 *Node
+	func() {
+		defer func() {
+			if rr := recover(); rr != nil {
+				failure = fmt.Sprintf("%v", rr)
+			}
+		}()
+		n2 = newGenesisOnlyNode(s.Env, g)
+	}()
+	if failure != "" {
+		s.Stats.Count("genesis_restart_failed_to_initialise") // C17's business
+		return
+	}
+	s.Stats.Count("rule:C13.after-genesis-restart")
+	s.Stats.Fault("restart_through_exported_genesis")
+	for _, c := range g.DispatcherGenesis.DispatchedCounts {
+		if c.Count > 1 {
+			s.Stats.Probe("genesis_restart_with_route_used_more_than_once")
+			break
+		}
+	}
+	real := s.N
+	s.qNode, s.qTag = n2, " state=restarted-through-exported-genesis"
+	s.N = n2 // the export the audit compares with is taken from the new instance as well
+	defer func() { s.N, s.qNode, s.qTag = real, nil, "" }()
+	g2 := n2.App.OrbiterKeeper.ExportGenesis(n2.Ctx())
+	if anyJSON(g2.DispatcherGenesis) != anyJSON(g.DispatcherGenesis) {
+		s.Stats.Count("genesis_restart_export_differs") // C17's business
+		return
+	}
+	s.auditQueries(r)
+}
+
 func (s *Sim) listPage(method string, p core.ProtocolID, amounts bool, pr *query.PageRequest) (lines []string, page *query.PageResponse, code uint32, log string) {
 	if amounts {
 		var resp dispatchertypes.QueryDispatchedAmountsResponse
@@ -224,7 +271,7 @@ func prefixSiblings(kp [][2]string) bool {
 
 func (s *Sim) walkListing(r *Rng, method string, p core.ProtocolID, want []string, amounts bool, kp [][2]string) {
 	bad := func(fp, f string, a ...any) {
-		s.violate("C13", "listing-and-pagination", fp+" method="+method, fmt.Sprintf("%s(%s): ", method, p)+fmt.Sprintf(f, a...))
+		s.violate("C13", "listing-and-pagination", fp+" method="+method+s.qTag, fmt.Sprintf("%s(%s): ", method, p)+fmt.Sprintf(f, a...))
 	}
 	n := len(want)
 	full, page, code, log := s.listPage(method, p, amounts, &query.PageRequest{Limit: uint64(n + 5), CountTotal: true})
@@ -406,6 +453,14 @@ func (s *Sim) auditPauseQueries(r *Rng) {
 
 // ---------------- C17 ----------------
 
+func anyJSON(v any) string {
+	bz, err := json.Marshal(v)
+	if err != nil {
+		return "marshal error: " + err.Error()
+	}
+	return string(bz)
+}
+
 func genJSON(g *orbitertypes.GenesisState) string {
 	bz, err := json.Marshal(g)
 	if err != nil {
@@ -455,18 +510,9 @@ func (s *Sim) auditGenesis(r *Rng, final bool) {
 		return
 	}
 	// (a) rebuilt-store twin
-	orig := s.N.DumpStore(ctx, "orbiter")
-	tw, failure := s.tryInit(g)
-	s.Stats.Count("rule:C17.rebuilt-store")
-	if failure != "" {
-		s.violate("C17", "export-initialises", "init-of-own-export-failed", fmt.Sprintf("InitGenesis of the export failed: %.300s", failure))
+	tw, ok := s.roundTripAt(ctx, g, "")
+	if !ok {
 		return
-	}
-	if reb := s.N.DumpStore(tw, "orbiter"); !bytes.Equal(orig, reb) {
-		s.violate("C17", "round-trip", "rebuilt-store-differs", fmt.Sprintf("raw orbiter store after export->init differs:\n original: %.400s\n rebuilt:  %.400s", orig, reb))
-	}
-	if g2 := s.N.App.OrbiterKeeper.ExportGenesis(tw); genJSON(g2) != genJSON(g) {
-		s.violate("C17", "round-trip", "re-export-differs", fmt.Sprintf("export %s\nre-export %s", genJSON(g), genJSON(g2)))
 	}
 	// (c) behaviour: the same probe packets on the original and on the twin
 	s.genesisBehaviour(ctx, tw, r)
@@ -490,13 +536,38 @@ func (s *Sim) auditGenesis(r *Rng, final bool) {
 			continue
 		}
 		s.Stats.Count("mutated_genesis_accepted:" + what)
-		if _, failure := s.tryInit(m); failure != "" {
+		mctx, failure := s.tryInit(m)
+		if failure != "" {
 			s.violate("C17", "accepted-implies-initialisable", "validated-genesis-fails-init mutation="+what, fmt.Sprintf("genesis accepted by validation cannot be initialised: %.300s\n%s", failure, genJSON(m)))
+			continue
+		}
+		// the state such a document initialises is a state like any other: its export must round-trip too
+		if g3 := s.N.App.OrbiterKeeper.ExportGenesis(mctx); g3.Validate() == nil {
+			s.roundTripAt(mctx, g3, " state=initialised-from-document mutation="+what)
 		}
 	}
 	if final {
 		s.freshInstanceTwin(g)
 	}
+}
+
+// roundTripAt: the export g of the state at ctx, initialised into an emptied store, must rebuild the very
+// same raw store and re-export to the same document.
+func (s *Sim) roundTripAt(ctx sdk.Context, g *orbitertypes.GenesisState, tag string) (sdk.Context, bool) {
+	orig := s.N.DumpStore(ctx, "orbiter")
+	tw, failure := s.tryInit(g)
+	s.Stats.Count("rule:C17.rebuilt-store")
+	if failure != "" {
+		s.violate("C17", "export-initialises", "init-of-own-export-failed"+tag, fmt.Sprintf("InitGenesis of the export failed: %.300s", failure))
+		return tw, false
+	}
+	if reb := s.N.DumpStore(tw, "orbiter"); !bytes.Equal(orig, reb) {
+		s.violate("C17", "round-trip", "rebuilt-store-differs"+tag, fmt.Sprintf("raw orbiter store after export->init differs (%d vs %d bytes):\n original: %.400s\n rebuilt:  %.400s", len(orig), len(reb), orig, reb))
+	}
+	if g2 := s.N.App.OrbiterKeeper.ExportGenesis(tw); genJSON(g2) != genJSON(g) {
+		s.violate("C17", "round-trip", "re-export-differs"+tag, fmt.Sprintf("export %.600s\nre-export %.600s", genJSON(g), genJSON(g2)))
+	}
+	return tw, true
 }
 
 func cloneGenesis(g *orbitertypes.GenesisState) *orbitertypes.GenesisState {
@@ -514,7 +585,7 @@ func cloneGenesis(g *orbitertypes.GenesisState) *orbitertypes.GenesisState {
 func mutateGenesis(g *orbitertypes.GenesisState, r *Rng) (*orbitertypes.GenesisState, string) {
 	m := cloneGenesis(g)
 	f, e, d := m.ForwarderGenesis, m.ExecutorGenesis, m.DispatcherGenesis
-	switch r.Intn(10) {
+	switch r.Intn(11) {
 	case 0:
 		if len(f.PausedProtocolIds) == 0 {
 			f.PausedProtocolIds = append(f.PausedProtocolIds, core.PROTOCOL_CCTP)
@@ -573,6 +644,21 @@ func mutateGenesis(g *orbitertypes.GenesisState, r *Rng) (*orbitertypes.GenesisS
 	case 8:
 		m.AdapterGenesis.Params.MaxPassthroughPayloadSize = []uint32{0, 1, 4294967295}[r.Intn(3)]
 		return m, "drawn-params"
+	case 9:
+		// more paused destinations under one protocol than any single message or default page can carry
+		k := []int{99, 100, 101, 130, 257}[r.Intn(5)]
+		proto := []core.ProtocolID{core.PROTOCOL_CCTP, core.PROTOCOL_HYPERLANE}[r.Intn(2)]
+		have := map[string]bool{}
+		for _, x := range f.PausedCrossChainIds {
+			have[x.ProtocolId.String()+"|"+x.CounterpartyId] = true
+		}
+		for i := 0; i < k; i++ {
+			id := strconv.Itoa(5000 + i)
+			if !have[proto.String()+"|"+id] {
+				f.PausedCrossChainIds = append(f.PausedCrossChainIds, &core.CrossChainID{ProtocolId: proto, CounterpartyId: id})
+			}
+		}
+		return m, "many-paused-cross-chains"
 	default:
 		e.PausedActionIds = append(e.PausedActionIds, []core.ActionID{core.ACTION_SWAP, core.ACTION_FEE, core.ActionID(7)}[r.Intn(3)])
 		return m, "drawn-paused-action"
@@ -894,23 +980,50 @@ func (s *Sim) auditImpostor(r *Rng) {
 			default:
 				s.fillValidBody(msg, r)
 			}
-			br := s.N.Branch()
-			before := s.N.DumpStore(br, "orbiter")
-			cctpBefore := digestStore(br.KVStore(s.N.App.GetKey("cctp")))
-			var err error
-			func() {
-				defer func() {
-					if rr := recover(); rr != nil {
-						err = fmt.Errorf("panic: %v", rr)
-					}
+			call := func(m sdk.Msg) (err error, changed bool) {
+				br := s.N.Branch()
+				before := s.N.DumpStore(br, "orbiter")
+				cctpBefore := digestStore(br.KVStore(s.N.App.GetKey("cctp")))
+				func() {
+					defer func() {
+						if rr := recover(); rr != nil {
+							err = fmt.Errorf("panic: %v", rr)
+						}
+					}()
+					_, err = s.N.App.MsgServiceRouter().Handler(m)(br, m)
 				}()
-				_, err = s.N.App.MsgServiceRouter().Handler(msg)(br, msg)
-			}()
-			s.Stats.Count("rule:C10.foreign-signer")
-			s.Stats.States["imp:"+mm.Method+"|"+signerClass(signer, e)+"|"+body] = true
-			changed := !bytes.Equal(before, s.N.DumpStore(br, "orbiter")) || cctpBefore != digestStore(br.KVStore(s.N.App.GetKey("cctp")))
-			if err == nil || changed {
-				s.violate("C10", "only-authority", fmt.Sprintf("%s accepted signer-class=%s", mm.Method, signerClass(signer, e)), fmt.Sprintf("%s with signer %q (body %s): err=%v state-changed=%v", mm.Input, signer, body, err, changed))
+				changed = !bytes.Equal(before, s.N.DumpStore(br, "orbiter")) || cctpBefore != digestStore(br.KVStore(s.N.App.GetKey("cctp")))
+				return err, changed
+			}
+			hist := ""
+			if r.Intn(3) == 0 {
+				// the rightful authority uses some RPC just before (on a branch of its own): what it was allowed
+				// to do must not rub off on whoever comes next
+				am := methods[r.Intn(len(methods))]
+				if s.N.App.MsgServiceRouter().HandlerByTypeURL("/"+am.Input) != nil {
+					if a := newMsg(am.Input, am.SignerField, auth); a != nil {
+						s.fillValidBody(a, r)
+						call(a)
+						hist = " after-an-authority-call"
+					}
+				}
+			}
+			attempts := 1
+			if r.Intn(3) == 0 {
+				attempts = 2 + r.Intn(2) // the same message again: a refusal is not worn down by repetition
+			}
+			for at := 1; at <= attempts; at++ {
+				err, changed := call(msg)
+				s.Stats.Count("rule:C10.foreign-signer")
+				s.Stats.States["imp:"+mm.Method+"|"+signerClass(signer, e)+"|"+body] = true
+				if err == nil || changed {
+					fp := fmt.Sprintf("%s accepted signer-class=%s", mm.Method, signerClass(signer, e))
+					if at > 1 {
+						fp += " on-repeated-attempt"
+					}
+					s.violate("C10", "only-authority", fp, fmt.Sprintf("%s with signer %q (body %s, attempt %d%s): err=%v state-changed=%v", mm.Input, signer, body, at, hist, err, changed))
+					break
+				}
 			}
 		}
 	}
